@@ -204,7 +204,8 @@ impl Property for C14 {
     fn rule(&self) -> String {
         format!(
             "edit histories (proptest gene vector; structural moves/inserts/removals of attached, detached and freshly created nodes and subtrees, attribute set/remove, \
-             character-data edits, split_text; harmless strings so that the result stays serialisable) x after every successful call (1) the invariant: along a pre-order walk of \
+             character-data edits, split_text; harmless strings so that the result stays serialisable) x after every successful call, or after every 2nd / 3rd call, or only \
+             at the end of the history (1) the invariant: along a pre-order walk of \
              each document (element, its attributes, its children) the order keys are non-zero, distinct and strictly increasing, and (2) a battery of {} node-set queries \
              (all node kinds, unions of late|early, reverse axes with positional predicates, positional filters on parenthesised sets) evaluated on the edited document and on \
              from_raw(document.to_string()) in the same view, compared as sequences of structural paths. Non-trivial = at least one successful structural edit of an attached \
@@ -227,11 +228,16 @@ impl Property for C14 {
     }
     fn strategy(&self, tier: Tier) -> BoxedStrategy<Json> {
         let max_ops = tier.pick(8usize, 24usize);
-        proptest::collection::vec(any::<u16>(), 0..(max_ops * 8 + 8))
-            .prop_map(move |genes| {
+        (proptest::collection::vec(any::<u16>(), 0..(max_ops * 8 + 8)), any::<u16>())
+            .prop_map(move |(genes, ob)| {
                 let mut g = Genes::new(genes);
-                let cfg = HistCfg { max_ops, safe_strings: true, w_struct: 9, w_attr: 3, w_chardata: 2, w_create: 5, huge_offsets: false, max_doc: 5, w_compound: 5 };
-                hist::gen_history(&mut g, &cfg)
+                let cfg = HistCfg { max_ops, safe_strings: true, w_struct: 9, w_attr: 3, w_chardata: 2, w_create: 5, huge_offsets: false, max_doc: 5, w_compound: 5, seams: false };
+                let mut h = hist::gen_history(&mut g, &cfg);
+                // how often the caller looks: after every call (half of the histories), after every 2nd or 3rd, or only
+                // at the end (0) — edits that follow each other with no query between them are histories too
+                let observe = [1u64, 1, 1, 1, 2, 2, 3, 0][crate::engine::pick_index(ob, 8)];
+                h["observe"] = serde_json::json!(observe);
+                h
             })
             .boxed()
     }
@@ -264,6 +270,9 @@ impl Property for C14 {
         }
         // one evaluation context per live document serves the whole history (a caller may keep its context across
         // edits); the re-parsed copies are queried with a fresh context each time
+        let observe = case["observe"].as_u64().unwrap_or(1);
+        let mut pending_change: Vec<bool> = pool.docs.iter().map(|_| false).collect();
+        let mut pending_structural: Vec<bool> = pool.docs.iter().map(|_| false).collect();
         let mut live_ctx: Vec<xml_xpath::eval::model::Context> = pool.docs.iter().map(|_| xml_xpath::eval::model::Context::default()).collect();
         for (step, op) in ops.iter().enumerate() {
             let kind = op["op"].as_str().unwrap_or("").to_string();
@@ -283,15 +292,37 @@ impl Property for C14 {
             obs.label(format!("ok:{}", kind));
             for (di, d) in pool.docs.iter().enumerate() {
                 let printed = d.to_string();
-                if printed == last_print[di] && !crate::props::c12::structural(&kind) {
+                if printed != last_print[di] {
+                    pending_change[di] = true;
+                }
+                if crate::props::c12::structural(&kind) {
+                    pending_structural[di] = true;
+                }
+                last_print[di] = printed;
+            }
+            // the caller does not look after every call
+            let last_step = step + 1 == ops.len();
+            let look = match observe {
+                0 => last_step,
+                k => (step + 1) % (k as usize) == 0 || last_step,
+            };
+            if !look {
+                obs.label("edit-not-observed-at-once");
+                continue;
+            }
+            for (di, d) in pool.docs.iter().enumerate() {
+                if !pending_change[di] && !pending_structural[di] {
                     continue;
                 }
-                let changed = printed != last_print[di];
-                last_print[di] = printed.clone();
+                let printed = last_print[di].clone();
+                let changed = pending_change[di];
+                let was_structural = pending_structural[di];
+                pending_change[di] = false;
+                pending_structural[di] = false;
                 if d.document_element().is_err() {
                     continue;
                 }
-                if changed && crate::props::c12::structural(&kind) {
+                if changed && was_structural {
                     nontrivial = true;
                     obs.label("compared-after-structural-edit");
                 }
